@@ -101,6 +101,11 @@ enum Res {
     Table(model::Table),
 }
 
+/// --min-count of the paired-FASTQ builds (the counting filter is per-sample state of the build workers)
+fn fastq_min_count(c: &Case, n_samples: usize) -> usize {
+    [1usize, 2, 3, 5][(c.rc_mask as usize / 2 + n_samples) % 4]
+}
+
 fn run_cmd(ctx: &Ctx, dir: &std::path::Path, c: &Case, k: usize, samples: &[Sample], threads: u8, tag: &str) -> Result<Res, Outcome> {
     let ts = threads.to_string();
     let fail = |o: &CmdOut| Res::Failed(o.err_tail());
@@ -113,7 +118,8 @@ fn run_cmd(ctx: &Ctx, dir: &std::path::Path, c: &Case, k: usize, samples: &[Samp
             let o = if c.cmd == Cmd::Build {
                 run_ska(ctx, dir, &["build", "-f", "list.txt", "-o", &out, "-k", &ks, "--threads", &ts])
             } else {
-                run_ska(ctx, dir, &["build", "-f", "fq_list.txt", "-o", &out, "-k", &ks, "--threads", &ts, "--min-count", "1", "--qual-filter", "no-filter"])
+                let mc = fastq_min_count(c, samples.len()).to_string();
+                run_ska(ctx, dir, &["build", "-f", "fq_list.txt", "-o", &out, "-k", &ks, "--threads", &ts, "--min-count", &mc, "--qual-filter", "no-filter"])
             };
             if let Some(e) = infra(&o) {
                 return Err(e);
@@ -202,8 +208,12 @@ fn check(c: &Case, ctx: &Ctx) -> Outcome {
                 let g = &recs[0];
                 let half = g.len() / 2;
                 let (a, b) = (g[..half + k].to_vec(), model::revcomp(&g[half..]));
-                cli::write_fastq(&dir.join(format!("smp{i}_1.fastq")), &[(a.clone(), vec![b'I'; a.len()])]);
-                cli::write_fastq(&dir.join(format!("smp{i}_2.fastq")), &[(b.clone(), vec![b'I'; b.len()])]);
+                // each read min-count times in file 1 and, for odd samples, once less in file 2
+                // (so that the count threshold decides about the k-mers only file 2 covers)
+                let m = fastq_min_count(c, samples.len());
+                let (ra, rb) = (m, if i % 2 == 1 { (m - 1).max(1) } else { m });
+                cli::write_fastq(&dir.join(format!("smp{i}_1.fastq")), &vec![(a.clone(), vec![b'I'; a.len()]); ra]);
+                cli::write_fastq(&dir.join(format!("smp{i}_2.fastq")), &vec![(b.clone(), vec![b'I'; b.len()]); rb]);
                 // a list may mix assemblies (two columns) and read pairs (three columns)
                 if (c.rc_mask as usize + samples.len()) % 2 == 0 && i % 3 != 1 {
                     fq += &format!("{name}\tsmp{i}.fa\n");
